@@ -107,6 +107,10 @@ func WithMultiEdges(on bool) Option { return func(d *DB) { d.multiEdges = on } }
 // order derived from seed (0 = ascending id order).
 func WithShuffle(seed uint64) Option { return func(d *DB) { d.shuffle = seed } }
 
+// WithFirstID sets the id the database hands to the first node and to the first relationship it creates (default 1,
+// as a PostgreSQL sequence does; Neo4j numbers from 0).
+func WithFirstID(id uint64) Option { return func(d *DB) { d.nextNode, d.nextEdge = id, id } }
+
 // WithPanicOnUnsupported makes every unsupported request panic with the *UnsupportedError.
 func WithPanicOnUnsupported(on bool) Option { return func(d *DB) { d.panicUnsupported = on } }
 
